@@ -64,6 +64,13 @@ func (ms *mapStruct) ptr(offset int64, l int32) ([]byte, error) {
 	}
 	if windowSize < len+alignFudge {
 		windowSize = alignedLength(len + alignFudge)
+		// Rounding up must not make the window extend beyond the end of
+		// the file: reading there fails and was reported as "file has
+		// changed mid-transfer" for long unmatched runs near the end of
+		// files larger than the default window.
+		if windowStart+windowSize > ms.fileSize {
+			windowSize = ms.fileSize - windowStart
+		}
 	}
 	if windowSize > ms.pSize {
 		win := make([]byte, windowSize)
